@@ -417,8 +417,9 @@ def jobs(tier, seed):
     for first, step, n, slack, mode in ((1, 2, 8, 1, 'std'), (1, 2, 8, 1, 'texp'), (3, 3, 6, 2, 'kw'), (2, 1, 7, 1, 's0'), (1, 2, 10, 1, 'texp')):
         J.append(dict(harness='range_form', params=dict(first=first, step=step, n=n, slack=slack, mode=mode), opts=dict(max_refuted=2, timeout=20000)))
     # 'the same numbers with and without the FFT path': the FFT branch executed on the correlation-theorem model (see C02 fft_exec)
-    for idx, wm, gap in (([1, 2, 3, 4, 5, 6, 7, 8], 4, 1), ([1, 2, 3, 4, 5], 8, 1), ([1, 2, 3], 7, 1), ([2, 4, 8, 10, 14], 4, 2), ([3, 6, 9, 12, 15, 18, 21], 9, 3)):
-        add('fft_exec', idx=idx, w_max=wm, gap=gap)
+    for idx, wm, gap in (([1, 2, 3, 4, 5, 6, 7, 8], 4, 1), ([1, 2, 3, 4, 5], 8, 1), ([1, 2, 3], 7, 1), ([2, 4, 8, 10, 14], 4, 2), ([3, 6, 9, 12, 15, 18, 21], 9, 3),
+                         ([1, 4, 7, 13], 6, 3), ([1, 2, 6, 7, 8], 8, 1), ([2, 10, 12], 7, 2)):        # sparse chains: fewer configurations than lags, expanded length beyond them
+        J.append(dict(harness='fft_exec', params=dict(idx=idx, w_max=wm, gap=gap), opts=dict(abs_scale=1.0)))      # replay: FFT rounding noise against exact zeros must not count
     add('gamma_fft', layout={'e|r1': [1, 2, 3, 4, 5, 6, 7, 8, 9, 10, 11, 12, 13, 14], 'e|r2': [3, 4, 5, 6, 7]}, fft=True)
     add('rename', layout=C, rename={'e|r1': 'e|rB', 'e|r2': 'e|rA'}, order=[1, 0], mode='s0')
     add('rename', layout=C, rename={'e|r1': 'e|rB', 'e|r2': 'e|rA'}, order=[1, 0], mode='kw')
